@@ -227,6 +227,9 @@ def main(tier, seed):
     plans.append(dict(dirs=[".hid", ".hid/.in", "..two"], max_cmds=3, ignores=False))   # nested roots whose names start with dots   # E: a nested root without any entry below it
     # nested roots with the SAME folder name in different places (their manifests of one run carry the same file name)
     plans.append(dict(dirs=["day1", "day1/cardA", "day2", "day2/cardA"], roots=["day1/cardA", "day2/cardA"], max_cmds=4, ignores=False))
+    # a plain folder that holds a sub folder whose name is a case variant of the tool's own folder name (another name on this
+    # file system): no history, nothing special
+    plans.append(dict(dirs=["A", "docs", "docs/ASCMHL", "A/Ascmhl"], roots=["A"], max_cmds=3, ignores=False))
     plans += [dict(dirs=DIRS, max_cmds=3 if tier == "quick" else 4, spell=sp) for sp in ("slash", "dot", "symlink")]   # root spelled 'dir/', '.'
     for pl in plans:
         meta = dict(alpha="c08", oracles=["c08"], cmds=0, observe=True, max_cmds=pl["max_cmds"], rich=pl.get("rich", False))
